@@ -380,12 +380,25 @@ class CheckerOnMutants(NativeCase):
             self.ob('distinguishable=>not-equal', not eq,
                     inputs=dict(block=a, mutant=b, kind='split-instruction', opts=o,
                                 witness=dict(stack=[hex(x) for x in witness[0]], seed=witness[1], why=witness[2])))
+        # the tool's own gate on one block object given as both arguments (what optimize_asm_contract does with a rejected block,
+        # finding F53) and on two parses of the same text
+        for b in list(corpus.BASE_BLOCKS)[:12 if tier == 'quick' else None] + [p[0] for p in SPLIT_PAIRS[:5]]:
+            ia = corpus.tokens(b)
+            for same_object in (True, False):
+                try:
+                    eq, reason = gate_verdict(ia, ia, [], same_object=same_object)
+                except BaseException as e:
+                    self.refusals.append(dict(inputs=dict(block=b, kind='gate-reflexive', same_object=same_object), info=repr(e)))
+                    continue
+                if str(reason).startswith("Comparison could not be performed"):
+                    continue            # the front end cannot analyse the block: a refusal, counted by C10
+                self.ob('gate:reflexive(B,B)=equal', bool(eq), inputs=dict(block=b, same_object=same_object), info=reason)
         cleanup_tmp()
         self.assumptions = tuple(self.assumptions) + ("%d pairs on which the checker raised instead of answering (refusals, e.g. %s)"
                                                        % (len(self.refusals), [r['info'] for r in self.refusals[:2]]),)
 
 
-def gate_verdict(instrs_a, instrs_b, opts=()):
+def gate_verdict(instrs_a, instrs_b, opts=(), same_object=False):
     """compare_asm_block_asm_format on two blocks given as token lists"""
     from . import pipeline
     import gasol_asm as ga
@@ -396,7 +409,7 @@ def gate_verdict(instrs_a, instrs_b, opts=()):
         ga.constants.append_store_instructions_to_split()
     try:
         ba = parser_asm.parse_blocks_from_plain_instructions(pipeline.plain_text(instrs_a))[0]
-        bb = parser_asm.parse_blocks_from_plain_instructions(pipeline.plain_text(instrs_b))[0]
+        bb = ba if same_object else parser_asm.parse_blocks_from_plain_instructions(pipeline.plain_text(instrs_b))[0]
         import io, contextlib
         with contextlib.redirect_stdout(io.StringIO()), contextlib.redirect_stderr(io.StringIO()):
             return ga.compare_asm_block_asm_format(ba, bb, params)
